@@ -132,6 +132,11 @@ class Schema2DF(Schema2Base):
             if self._get_as_ids:
                 class_entry_name = f"{entry.unit_class_entry.attributes.get(constants.hed_id)}"
             new_row[constants.has_unit_class] = class_entry_name
+        if not include_props:
+            # e.g. a unit class of the partnered standard schema that is only listed to hold library units
+            new_row[constants.hed_id] = ""
+            new_row[constants.attributes] = ""
+            new_row[constants.description] = ""
         df.loc[len(df)] = new_row
         pass
 
